@@ -41,4 +41,5 @@ def run(P, ctx):
             res.holds(rid, bid, f"{len(P.reach_closure(start))} functions reachable, none blocks", where=f"{b.file}:{b.line}")
     from rules import leftright
     leftright.check(P, res, "C08-3", r"^fibre::<?spmc::topic::", 4)
+    leftright.check_relative(P, res, "C08-4", r"^fibre::<?spmc::topic::", 4)
     return res
